@@ -7,8 +7,10 @@ import exprlib as EL
 import gen_json as G
 import pipelib as PL
 
-PATTERNS = ["^a", "b$", "[0-9]+", "^$", "(a)(.*)", "x|y", "^[a-c]+$", "é", "[0-9", "(", "a{2,}"]
-SUBJECTS = ["", "a", "abc", "b", "aab", "123", "x1", "é", "cab", "aaa", "y"]
+PATTERNS = ["^a", "b$", "[0-9]+", "^$", "(a)(.*)", "x|y", "^[a-c]+$", "é", "[0-9", "(", "a{2,}",
+            # patterns whose compiled program is large (counted repetition of a Unicode class), still far below the compiler's default limit
+            "^\\w{64}$", "\\w{30}", "\\pL{30}", "(\\w{32,64})", "[a-z]{100}", "\\d{40}"]
+SUBJECTS = ["", "a", "abc", "b", "aab", "123", "x1", "é", "cab", "aaa", "y", "a" * 64, "é" * 30 + "1" * 40, "k" * 100]
 
 
 def respell(rnd, e, table):
@@ -75,6 +77,16 @@ def check(tier, seed, replay=None):
             e = X.gen_typed(rnd, table, rnd.choice(["num", "str", "bool", "list:num", "obj", "any"]), rnd.choice([1, 2, 3, 4]), X.Env())
             texts = [X.text(canonical_spelling(e))] + [X.text(respell(rnd, e, table)) for _ in range(3)]
             plans.append({"kind": "spell", "texts": texts, "input": X.typed_input(rnd), "ast": X.strip(e)})
+        # one reference site reached under two bindings of the name it refers to: @name, (@ "name") and the written-out form agree
+        REBIND = [(["--set=@scale=(* .n @factor)"], ['(+ (define "factor" 2 @scale) (define "factor" 3 @scale))', '(+ (define "factor" 2 (@ "scale")) (def "factor" 3 (@ "scale")))',
+                                                     '(+ (* .n 2) (* .n 3))']),
+                  ([], ['(define "scale" (* .m @factor) (+ (def "factor" 2 @scale) (macro "factor" 5 @scale)))', '(+ (* .m 2) (* .m 5))',
+                        '(define "scale" (* .m (@ "factor")) (+ (# "factor" 2 (@ "scale")) (define "factor" 5 @scale)))']),
+                  (["--set=@pick=(get .o @key)", "--set=@key=\"a\""], ['(push [] @pick (define "key" "b" @pick) @pick)', '(push [] (get .o "a") (get .o "b") (get .o "a"))']),
+                  (["--set=@w=(concat :p .s)"], ['(concat (set "p" "<" @w) (set "p" ">" @w))', '(concat (concat "<" .s) (concat ">" .s))'])]
+        for i in range(12 if quick else 400):
+            extra, texts = rnd.choice(REBIND)
+            plans.append({"kind": "spell", "texts": texts, "input": X.typed_input(rnd), "extra": extra})
         for i in range(20 if quick else 1500):
             k = rnd.choice([3, 6, 12, 25, 40])
             pats = rnd.sample(PATTERNS, rnd.choice([1, 2, 3, 4]))
@@ -110,7 +122,7 @@ def check(tier, seed, replay=None):
             else:
                 add(pi, ["--set=vv=" + E, "--select=:vv =x"], data)
         elif p["kind"] == "spell":
-            add(pi, ["--select=%s =s%d" % (t, k) for k, t in enumerate(p["texts"])], G.canonical(p["input"]) + b"\n")
+            add(pi, ["--select=%s =s%d" % (t, k) for k, t in enumerate(p["texts"])] + p.get("extra", []), G.canonical(p["input"]) + b"\n")
         else:
             data = b"".join(G.canonical(("obj", [(X.cps("s"), ("str", X.cps(s))), (X.cps("p"), ("str", X.cps(pt)))])) + b"\n" for s, pt in p["pairs"])
             for size in (0, 1, 2, 64):
@@ -134,7 +146,7 @@ def check(tier, seed, replay=None):
         o = per[pi]
         if p["kind"] == "spell" and o[0]["res"] != "ok":
             # all spellings are in one run; find out which of them is refused
-            single = run_cases(jvh, [{"id": k, "argv": ["--select=%s =s" % t], "stdin": hexs(G.canonical(p["input"]) + b"\n")} for k, t in enumerate(p["texts"])])
+            single = run_cases(jvh, [{"id": k, "argv": ["--select=%s =s" % t] + p.get("extra", []), "stdin": hexs(G.canonical(p["input"]) + b"\n")} for k, t in enumerate(p["texts"])])
             acc = [single[k]["res"] == "ok" for k in range(len(p["texts"]))]
             if acc[0] and not all(acc):
                 bad = p["texts"][acc.index(False)]
